@@ -3,6 +3,7 @@ package c17
 import (
 	"fmt"
 	"math/rand"
+	"reflect"
 	"regexp"
 	"sort"
 	"strconv"
@@ -10,6 +11,7 @@ import (
 
 	"verif/harness/llvmoracle"
 	"verif/harness/mbt"
+	"verif/harness/props/modgen"
 )
 
 // The specialised metadata nodes: one module that uses all 28 node kinds of
@@ -239,6 +241,22 @@ var reNamedLine = regexp.MustCompile(`(?m)^!([A-Za-z_][\w.]*) = !\{(.*)\}$`)
 func parseOps(s string) []op {
 	out := []op{}
 	i := 0
+	// keyword of the field an operand is written in (`name: <operand>`), lower-cased; "" for list elements
+	kw := func(at int) string {
+		j := at
+		for j > 0 && s[j-1] == ' ' {
+			j--
+		}
+		if j == 0 || s[j-1] != ':' {
+			return ""
+		}
+		e := j - 1
+		b := e
+		for b > 0 && (s[b-1] == '_' || s[b-1] >= 'A' && s[b-1] <= 'Z' || s[b-1] >= 'a' && s[b-1] <= 'z' || s[b-1] >= '0' && s[b-1] <= '9') {
+			b--
+		}
+		return strings.ToLower(s[b:e])
+	}
 	matching := func(open, close byte, from int) int { // index of the bracket matching s[from]
 		depth := 0
 		for j := from; j < len(s); j++ {
@@ -280,11 +298,11 @@ func parseOps(s string) []op {
 				j++
 			}
 			id, _ := strconv.Atoi(s[i+1 : j])
-			out = append(out, op{"k": "ref", "id": id, "same": true})
+			out = append(out, op{"k": "ref", "id": id, "same": true, "f": kw(i)})
 			i = j
 		case c == '!' && i+1 < len(s) && s[i+1] == '{':
 			e := matching('{', '}', i+1)
-			out = append(out, op{"k": "tuple", "id": -1, "ops": parseOps(s[i+2 : e])})
+			out = append(out, op{"k": "tuple", "id": -1, "ops": parseOps(s[i+2 : e]), "f": kw(i)})
 			i = e + 1
 		case c == '!' && i+1 < len(s) && (s[i+1] >= 'A' && s[i+1] <= 'Z'):
 			j := i + 1
@@ -293,7 +311,7 @@ func parseOps(s string) []op {
 			}
 			if j < len(s) && s[j] == '(' {
 				e := matching('(', ')', j)
-				out = append(out, op{"k": "tuple", "id": -1, "ops": parseOps(s[j+1 : e])})
+				out = append(out, op{"k": "tuple", "id": -1, "ops": parseOps(s[j+1 : e]), "f": kw(i)})
 				i = e + 1
 			} else {
 				i = j
@@ -498,4 +516,80 @@ var reRefID = regexp.MustCompile(`([ ({,])!(\d+)`)
 func respell(text, zd, zr string) string {
 	text = reRefID.ReplaceAllString(text, "${1}!"+zr+"${2}")
 	return reDefID.ReplaceAllString(text, "!"+zd+"${1} = ")
+}
+
+
+// --- rows from the debug-info families of spec/Modules.tla ----------------------------------
+
+// modulesDIRows turns every debug-info configuration TLC enumerates from Modules.tla (each alternative of each
+// field alone, the listed pairs, all optional fields at once; fields in table order, reversed, and the node
+// written inline) into a text row. The required structure is read off the text; since the fields of a
+// specialised node may be written in any order, operands are compared sorted by field keyword.
+func modulesDIRows(rep *mbt.Report) []*parseRow {
+	var rows []*parseRow
+	seen := map[string]bool{}
+	for _, v := range modgen.Generate(rep, "DI*") {
+		if !v.DI || !v.Repr {
+			continue
+		}
+		text := v.Text()
+		if seen[text] {
+			continue
+		}
+		seen[text] = true
+		w := wantFromText(text)
+		sortWantByField(w)
+		form := v.Form
+		if form == "" {
+			form = "fwd"
+		}
+		rows = append(rows, &parseRow{Src: "text", Want: w, text: text, name: v.Fam + "#modules.tla@" + form + "#", freeSites: true, Unordered: true})
+	}
+	return rows
+}
+
+func opsOf(x interface{}) []op {
+	switch v := x.(type) {
+	case []op:
+		return v
+	case []interface{}:
+		out := make([]op, 0, len(v))
+		for _, e := range v {
+			switch m := e.(type) {
+			case map[string]interface{}:
+				out = append(out, op(m))
+			case op:
+				out = append(out, m)
+			}
+		}
+		return out
+	}
+	return nil
+}
+
+// sortOps orders the operands by the field they sit in (stable: list elements, which carry no field, keep
+// their order), recursively.
+func sortOps(ops []op) []op {
+	out := append([]op{}, ops...)
+	sort.SliceStable(out, func(i, j int) bool { fi, _ := out[i]["f"].(string); fj, _ := out[j]["f"].(string); return fi < fj })
+	for _, o := range out {
+		if inner, ok := o["ops"]; ok {
+			o["ops"] = sortOps(opsOf(inner))
+		}
+	}
+	return out
+}
+
+func sortWantByField(w map[string]interface{}) {
+	rv := reflect.ValueOf(w["defs"])
+	for i := 0; i < rv.Len(); i++ {
+		f := rv.Index(i).FieldByName("Ops")
+		f.Set(reflect.ValueOf(sortOps(f.Interface().([]op))))
+	}
+}
+
+func sortObsByField(o *observation) {
+	for i := range o.Defs {
+		o.Defs[i].Ops = sortOps(o.Defs[i].Ops)
+	}
 }
